@@ -14,6 +14,7 @@ import (
 	"strconv"
 	"strings"
 	"sync"
+	"sync/atomic"
 	"time"
 )
 
@@ -65,7 +66,19 @@ type Shard struct {
 	Notes      []string
 	Data       map[string]interface{} // free-form per-shard data for Finalize
 	deadline   time.Time
+	curCase    atomic.Value // *Case being executed (for the hang watchdog)
+	progress   int64
 }
+
+// Begin announces the case about to be executed; a case that makes no progress for HangSeconds is reported as a
+// violation (<prop>/hang) by the shard's watchdog instead of blocking the check for ever.
+func (s *Shard) Begin(c *Case) {
+	s.curCase.Store(c)
+	atomic.AddInt64(&s.progress, 1)
+}
+
+// HangSeconds is far above any legitimate case duration (micro- to milliseconds).
+var HangSeconds = 30
 
 // Take returns true when the next unit of work belongs to this shard.
 func (s *Shard) Take() bool {
@@ -152,7 +165,39 @@ func RunShard(prop, tier string, idx, n int, dir string) {
 		sec, _ := strconv.Atoi(v)
 		s.deadline = time.Now().Add(time.Duration(sec) * time.Second)
 	}
-	p.Run(s)
+	done := make(chan struct{})
+	hung := make(chan *Case, 1)
+	go func() {
+		last, since := int64(-1), time.Now()
+		for {
+			select {
+			case <-done:
+				return
+			case <-time.After(500 * time.Millisecond):
+			}
+			cur := atomic.LoadInt64(&s.progress)
+			if cur != last {
+				last, since = cur, time.Now()
+				continue
+			}
+			if c, _ := s.curCase.Load().(*Case); c != nil && time.Since(since) > time.Duration(HangSeconds)*time.Second {
+				hung <- c
+				return
+			}
+		}
+	}()
+	go func() {
+		p.Run(s)
+		close(done)
+	}()
+	select {
+	case <-done:
+	case c := <-hung:
+		// the enumerating goroutine is stuck inside the code under test; it does not touch the shard's maps there
+		s.Exhaustive = false
+		s.Report([]Violation{{Sig: prop + "/hang", Msg: fmt.Sprintf("no progress for %ds on one case: the request is never answered", HangSeconds), Case: c}})
+		s.Notes = append(s.Notes, "shard stopped at a hanging case; the rest of its share was not explored")
+	}
 	out := shardOut{s.Evals, s.Samples, s.Viol, s.ViolCount, s.Counters, s.Bounds, s.Exhaustive, s.Notes, s.Data}
 	b, err := json.Marshal(out)
 	if err != nil {
